@@ -7,7 +7,8 @@ From Coq Require Import ZArith List Bool.
 From RbpfV Require Import MachInt Ebpf Cases Mem InterpDefs WellFormed Verifier Isa MemLemmas Interp InterpProofs
   InterpArmsCall InterpCalls.
 From RbpfV Require Import X86Sem X86Stk JitFrameProofs.
-From RbpfV.gen Require Import JitFrame.
+From RbpfV Require Import Stack StackRsProofs.
+From RbpfV.gen Require Import JitFrame StackRs.
 Import ListNotations.
 Open Scope Z_scope.
 
@@ -59,7 +60,26 @@ Theorem C07_jit_local_call : forall R m, (forall r, 0 <= R r < 2 ^ 64) -> 64 <= 
         forall r, ~ In r [3; 4; 13; 14; 15] -> R3 r = R2 r.
 Proof. exact jit_local_call. Qed.
 
+(** src/stack.rs is the model Stack.usage_map: from the expressions regenerated from stack.rs -- a calculator's result is used
+    as it is (no clamping, no rounding), the default is 256, the table has a key for pc 0 and for the target
+    `(idx as isize + 1 + imm as isize) as usize` of every local call -- the table of frame sizes is [usage_map] *)
+Theorem C07_stack_rs_pieces :
+  (forall u, gen_stack_usage_value (Some u) = u) /\ gen_stack_usage_value None = 256 /\
+  (forall r, gen_stack_usage_type true r = Some r) /\ (forall r, gen_stack_usage_type false r = None) /\
+  (forall o s, gen_stack_is_local_call o s = (o =? op_call) && (s =? 1)) /\
+  (forall idx imm, 0 <= idx < 2 ^ 62 -> - 2 ^ 31 <= imm < 2 ^ 31 -> gen_stack_call_key idx imm = Ok (cast USZ (idx + 1 + imm))).
+Proof. exact stack_rs_pieces. Qed.
+
+Theorem C07_usage_map_is_stack_rs : forall prog calc pc,
+  usage_map prog calc pc =
+  if (pc =? 0) || inb pc (call_targets prog)
+  then Some (gen_stack_usage_value (gen_stack_usage_type (is_some calc) (match calc with Some c => cast U16 (c pc) | None => 0 end)))
+  else None.
+Proof. exact usage_map_from_stack_rs. Qed.
+
 Print Assumptions C07_call.
 Print Assumptions C07_call_return.
 Print Assumptions C07_depth_limit.
 Print Assumptions C07_jit_local_call.
+Print Assumptions C07_stack_rs_pieces.
+Print Assumptions C07_usage_map_is_stack_rs.
